@@ -120,3 +120,15 @@ Print Assumptions C20_moments_are_the_source's.
 Example C20_moments_example :
   (var_two_pass 0 [100000001#1; 100000002#1; 100000003#1] == 2 # 3)%Q /\ (var_two_pass 1 [1#1; 2#1; 4#1] == 7 # 3)%Q.
 Proof. split; vm_compute; reflexivity. Qed.
+
+(* Tie B (pins): the functions this property's models transcribe read, statement by statement, as they did when the models
+   were written against them; Gen/SourcesGen.v is regenerated from /repo on every run (translator/pins.py). *)
+From GL Require Import Gen.SourcesGen Model.Sources Proofs.PinC20.
+Theorem C20_modelled_functions_are_the_source's :
+  gen_src_nb_reduce = src_nb_reduce /\
+  gen_src_reduce_1d = src_reduce_1d /\
+  gen_src_nb_dot = src_nb_dot /\
+  gen_src_bools_to_categorical = src_bools_to_categorical /\
+  gen_src_pretty_cut = src_pretty_cut.
+Proof. exact (conj pin_nb_reduce (conj pin_reduce_1d (conj pin_nb_dot (conj pin_bools_to_categorical pin_pretty_cut)))). Qed.
+Print Assumptions C20_modelled_functions_are_the_source's.
